@@ -679,18 +679,57 @@ class Discharger:
         if fn == "Size::byte_size":
             pk = "<Size as Parseable>::parse"
             pf = self.f.fns.get(pk)
-            if pf is not None:
-                guards = find_all(pf.body, lambda n: n.get("k") == "mcall" and n["m"] in ("checked_mul",))
-                tm = find_all(pf.body, lambda n: n.get("k") == "mcall" and n["m"] in ("try_map", "verify"))
-                if guards and tm:
-                    # every constructing alternative must pass through the guard
-                    fb = self.b.fn_ir(pk)
-                    body = A.single_body(fb)
-                    live = [A.unwrap(a) for a in A.flat_alts(body) if not c05.never_succeeds(self.g, a)] if body is not None else []
-                    allguarded = bool(live) and all(a["t"] in ("trymap", "verify") or (a["t"] == "map" and A.unwrap(a["p"])["t"] in ("trymap", "verify")) for a in live)
-                    if allguarded:
-                        return True, "arith", "count × unit in Size::byte_size: every Size the parser builds passed checked_mul(count, unit) in a try_map/verify (dominating range guard at construction)"
+            if pf is not None and len(ops) == 1:
+                # the guarded product must be the one computed here: <payload> * self.<unit fn>()
+                op = ops[0]
+                unit_m = rx.peel(op["rhs"])
+                unit_name = unit_m["m"] if unit_m.get("k") == "mcall" and rx.is_var(unit_m["recv"], "self") and not unit_m["args"] else None
+                fb = self.b.fn_ir(pk)
+                body = A.single_body(fb)
+                if body is None and fb["t"] == "fnbody" and not fb["steps"] and not fb["unknown"] and fb["tail"] is not None:
+                    body = A.unwrap(fb["tail"])
+                why = "no verify/try_map guard around the alternatives of %s" % pk
+                if body is not None and body["t"] == "verify" and unit_name and op["op"] == "*":
+                    live = [A.unwrap(a) for a in A.flat_alts(body["p"]) if not c05.never_succeeds(self.g, a)]
+                    okg, why = size_guard(body["f"], unit_name, self.f)
+                    if okg and live:
+                        return True, "arith", "count × unit in Size::byte_size: every Size the parser builds (%d live alternatives) passed `count.checked_mul(size.%s()).is_some()` on the same u64 operands in a verify (dominating range guard at construction)" % (len(live), unit_name)
+                return False, "arith", "integer Mul on run-time operands in %s (`%s`): the construction-time guard is not the same product (%s): overflow panics in debug builds and wraps in release" % (fn, src(op), why)
         return False, "arith", "integer %s through an operator trait on run-time operands in %s (`%s`): overflow panics in debug builds and wraps in release" % (s["what"].split("::")[-2] if "::" in s["what"] else s["what"], fn, src(ops[0]) if ops else "?")
+
+
+def size_guard(f, unit_name, facts):
+    """The verify predicate is `|size| { let (V1(c) | V2(c) | ..) = size; c.checked_mul(size.UNIT()).is_some() }` over every
+    variant of the enum, with no conversion of either operand (a wider type would make the guard vacuous)."""
+    if f.get("k") != "closure" or len(f["params"]) != 1:
+        return False, "guard is not a closure or function of one argument"
+    pn = rx.closure_params(f)[0].get("name")
+    body = f["body"]
+    stmts = rx.stmts_of(body)
+    if len(stmts) != 2 or stmts[0]["k"] != "let" or stmts[0]["init"] is None or not rx.is_var(stmts[0]["init"], pn):
+        return False, "guard body is not `let <all variants>(count) = size; <test>`"
+    cases = rx.pat_cases(rx.strip_typed(stmts[0]["pat"])) if hasattr(rx, "strip_typed") else rx.pat_cases(stmts[0]["pat"])
+    names = set()
+    variants = set()
+    for p in cases:
+        pv = rx.pat_variant(p)
+        if not pv or len(pv[1]) != 1 or pv[1][0]["k"] != "ident":
+            return False, "pattern case %s is not Variant(count)" % F.psrc(p)
+        variants.add(pv[0].split("::")[-1])
+        names.add(pv[1][0]["name"])
+    if variants != set(facts.variants("Size")) or len(names) != 1:
+        return False, "the pattern does not bind the payload of every Size variant to one name"
+    cnt = names.pop()
+    t = rx.tail_expr(body)
+    if not (t is not None and t["k"] == "mcall" and t["m"] == "is_some" and not t["args"]):
+        return False, "guard result is not `.is_some()`"
+    cm = t["recv"]
+    if not (cm["k"] == "mcall" and cm["m"] == "checked_mul" and len(cm["args"]) == 1 and rx.is_var(cm["recv"], cnt)):
+        return False, "guard is not `%s.checked_mul(..)` directly on the u64 payload: `%s`" % (cnt, src(cm)[:80])
+    a = rx.peel(cm["args"][0])
+    if not (a.get("k") == "mcall" and a["m"] == unit_name and not a["args"] and rx.is_var(a["recv"], pn)):
+        return False, "guard multiplies by `%s`, not by %s.%s()" % (src(a)[:60], pn, unit_name)
+    return True, ""
 
 
 # ------------------------------------------------------------------ progress & termination
